@@ -1815,7 +1815,7 @@ Htrunc(int32 aid, int32 trunc_len)
         HGOTO_ERROR(DFE_INTERNAL, FAIL);
 
     /* check for actually being able to truncate the data */
-    if (data_len > trunc_len) {
+    if (trunc_len >= 0 && data_len > trunc_len) {
         /* set the new length of the dataset.
            Note value of '-2' for the offset parameter means not to update
            the offset in the DD.*/
